@@ -333,7 +333,53 @@ func c07PubB64(keyLabel string) string {
 	return base64.RawStdEncoding.EncodeToString(pub)
 }
 
+// user IDs that are valid only under the historical grammar (upper case, '+', other printable ASCII)
+var c07HistoricalUsers = []string{"@Alice:a.example", "@alice+work:a.example", "@Carol.Smith:c.example", "@a!b#c:b.example"}
+
+// c07InjectForeign adds an auth event of ANOTHER room to the auth list: as a second event for a tuple
+// that is already there (after or before the room's own one), or under a tuple of its own. The
+// rules refuse auth events from different rooms whatever else they say.
+func c07InjectForeign(t *rapid.T, version string, c *c07Case) {
+	if len(c.Auth) < 2 {
+		return
+	}
+	i := rapid.IntRange(1, len(c.Auth)-1).Draw(t, "foreignOf")
+	tree, err := evTree(c.Auth[i])
+	if err != nil {
+		return
+	}
+	room := "!elsewhere:a.example"
+	if vtraits[version].Creators {
+		room = "!" + strings.Repeat("C", 43)
+	}
+	tree = tree.with("room_id", jstr(room))
+	if vtraits[version].Format == 1 {
+		tree = tree.with("event_id", jstr("$foreign:a.example"))
+	}
+	mode := rapid.SampledFrom([]string{"same-tuple-after", "same-tuple-after", "same-tuple-before", "own-tuple"}).Draw(t, "foreignMode")
+	if mode == "own-tuple" {
+		tree = tree.with("type", jstr("org.example.foreign")).with("state_key", jstr("f"))
+	}
+	tree = tree.without("hashes")
+	tree = tree.with("hashes", jobj("sha256", jstr(rcontentHash(tree))))
+	raw := vfBytes(jplain(tree))
+	switch mode {
+	case "same-tuple-before":
+		c.Auth = append(c.Auth[:i:i], append([]vfBytes{raw}, c.Auth[i:]...)...)
+	default:
+		c.Auth = append(c.Auth, raw)
+	}
+}
+
 func c07GenRandom(t *rapid.T) c07Case {
+	c := c07GenRandomRoom(t)
+	if rapid.IntRange(0, 11).Draw(t, "foreignAuth") == 0 {
+		c07InjectForeign(t, c.Version, &c)
+	}
+	return c
+}
+
+func c07GenRandomRoom(t *rapid.T) c07Case {
 	version := evGenVersion(t)
 	tr := vtraits[version]
 	r := c07GenRoom(t, version)
@@ -397,7 +443,8 @@ func c07GenRandom(t *rapid.T) c07Case {
 		case 2:
 			e.StateKey = raSK(sender)
 		default:
-			e.StateKey = raSK(rapid.SampledFrom(c07Users).Draw(t, "skUser"))
+			// another user's ID, or a key that merely starts with '@' (the rule is about the first character)
+			e.StateKey = raSK(rapid.SampledFrom(append([]string{"@", "@u1", "@bridge_puppet_7", "@alice", "@:a.example", "@alice:"}, c07Users...)).Draw(t, "skUser"))
 		}
 	case "m.room.third_party_invite":
 		e.StateKey = raSK("tok2")
@@ -427,11 +474,14 @@ func c07GenRandom(t *rapid.T) c07Case {
 			cc = cc.with("room_version", jstr(version))
 		}
 		if tr.Creators {
-			switch rapid.IntRange(0, 3).Draw(t, "ac") {
+			switch rapid.IntRange(0, 4).Draw(t, "ac") {
 			case 0:
 				cc = cc.with("additional_creators", jarr(jstr(c07Alice)))
 			case 1:
 				cc = cc.with("additional_creators", jarr(jstr("notauser")))
+			case 2:
+				// user IDs of the historical grammar are valid user IDs
+				cc = cc.with("additional_creators", jarr(jstr(c07Alice), jstr(rapid.SampledFrom(c07HistoricalUsers).Draw(t, "acHist"))))
 			}
 		}
 		e.Content = cc
@@ -579,7 +629,7 @@ func c07MemberCase(version, newMem string, self bool, sPrev, tPrev, jr string, s
 
 func c07EnumGeneric(size, shard, nshards int, emit func(c07Case)) {
 	idx := 0
-	types := []string{"message", "topic", "custom-at-self", "custom-at-other", "third_party_invite", "third_party_invite-events-entry-high", "third_party_invite-events-entry-low", "topic-events-entry-high", "message-events-entry-low", "redaction-same", "redaction-other", "aliases-own", "aliases-other", "join_rules", "first-join", "first-join-2prev"}
+	types := []string{"message", "topic", "custom-at-self", "custom-at-other", "custom-at-not-a-user-id", "custom-at-only", "third_party_invite", "third_party_invite-events-entry-high", "third_party_invite-events-entry-low", "topic-events-entry-high", "message-events-entry-low", "redaction-same", "redaction-other", "aliases-own", "aliases-other", "join_rules", "first-join", "first-join-2prev"}
 	for _, version := range vfVersions {
 		for _, kind := range types {
 			for _, sMem := range c07PrevMems {
@@ -604,7 +654,7 @@ func c07EnumGeneric(size, shard, nshards int, emit func(c07Case)) {
 				for _, creator := range []bool{true, false} {
 					for _, rv := range []string{"-", "=", "bogus"} {
 						for _, room := range []bool{false, true} {
-							for _, ac := range []string{"-", "valid", "invalid"} {
+							for _, ac := range []string{"-", "valid", "valid-historical", "invalid"} {
 								for _, sk := range []string{"", "x"} {
 									idx++
 									if idx%nshards != shard || !c07Pick(idx, size) {
@@ -662,6 +712,10 @@ func c07GenericCase(version, kind, sMem string, lvl int64, fed, sender string, h
 		e.Type, e.StateKey = "m.room.topic", raSK("")
 	case "custom-at-self":
 		e.Type, e.StateKey = "org.example.custom", raSK(sender)
+	case "custom-at-not-a-user-id":
+		e.Type, e.StateKey = "org.example.custom", raSK("@bridge_puppet_7")
+	case "custom-at-only":
+		e.Type, e.StateKey = "org.example.custom", raSK("@")
 	case "custom-at-other":
 		e.Type, e.StateKey = "org.example.custom", raSK(c07Carol)
 	case "third_party_invite", "third_party_invite-events-entry-high", "third_party_invite-events-entry-low":
@@ -705,6 +759,8 @@ func c07CreateCase(version string, prev bool, dom string, creator bool, rv strin
 	switch ac {
 	case "valid":
 		cc = cc.with("additional_creators", jarr(jstr(c07Alice)))
+	case "valid-historical":
+		cc = cc.with("additional_creators", jarr(jstr(c07HistoricalUsers[0]), jstr(c07HistoricalUsers[1]), jstr(c07HistoricalUsers[2])))
 	case "invalid":
 		cc = cc.with("additional_creators", jarr(jstr("notauser")))
 	}
